@@ -3,8 +3,8 @@ package vh
 // C18 Log window and live subscription: right window, no gap, no duplicate.
 
 import (
-	"math"
 	"fmt"
+	"math"
 	"strings"
 
 	"github.com/f1bonacc1/process-compose/src/pclog"
